@@ -1446,11 +1446,39 @@ def m_vec_dedup(I, args, callee):
     return UNIT
 
 
+def m_slice_windows(I, args, callee):
+    sl = as_slice(I, args[0])
+    n = I.concretize(args[1], 'windows size')
+    if n == 0:
+        I.fail('windows-zero', 'slice::windows(0) panics')
+    return new_iter([SliceRef(sl.cell, sl.path, sl.start + i, n) for i in range(0, max(0, sl.len - n + 1))])
+
+
+def m_slice_first(I, args, callee):
+    sl = as_slice(I, args[0])
+    if sl.len == 0:
+        return none()
+    lst, start, ln = I.elems_of(sl)
+    return some(Ref(Cell(Agg('view', lst)), (('f', start),)))
+
+
+def m_slice_last(I, args, callee):
+    sl = as_slice(I, args[0])
+    if sl.len == 0:
+        return none()
+    lst, start, ln = I.elems_of(sl)
+    return some(Ref(Cell(Agg('view', lst)), (('f', start + ln - 1),)))
+
+
 def m_path_display(I, args, callee):
     return Agg('Display', [as_slice(I, args[0])])
 
 
 MODELS = [
+    (r'^(core::)?slice::<impl \[.*\]>::windows$', m_slice_windows),
+    (r'^<(std::slice::)?Windows<.*> as Iterator>::(next)$', m_pyiter_next),
+    (r'^(core::)?slice::<impl \[.*\]>::first$', m_slice_first),
+    (r'^(core::)?slice::<impl \[.*\]>::last$', m_slice_last),
     (r'^(core::)?slice::<impl \[.*\]>::sort(_unstable)?$', m_slice_sort),
     (r'^Vec::<.*>::dedup$', m_vec_dedup),
     (r'^Path::display$|^PathBuf::display$', m_path_display),
